@@ -246,6 +246,7 @@ let judge _id (c : cursor) (r : cursor) : bool * string =
     let fm = ref (if ordered then (match fm_new f with Ok m -> Some m | _ -> None) else None) in
     let pairs_ = ref [] in
     let slots = ref [| (!s, !fm, !pairs_) |] and cur = ref 0 in
+    let deferred = ref None in     (* a failure reported only if nothing else fails in the case *)
     while not (at_end c) do
       let tok = next c in
       match tok with
@@ -296,6 +297,17 @@ let judge _id (c : cursor) (r : cursor) : bool * string =
               | Garbage g -> oracle_fail "FilterMap.items_of_matching_ids" site ("garbage " ^ g)) in
           if norm got <> norm e then
             oracle_fail "FilterMap.items_of_matching_ids" site ("impl items " ^ str_ints got ^ " expected " ^ str_ints e);
+          (* every other way of traversing the returned IndexMap (pre/post increment and decrement, it + k,
+             it[k], it += / -= k, distance, comparisons, ->, iterator-range constructor; on the object and on
+             a const view of it) must give the same items: the harness compares them with the list above *)
+          let report = (try next r with Failure m -> oracle_fail "no_UB" kind ("short implementation output: " ^ m)) in
+          if report <> "ok" then
+            oracle_fail "FilterMap.items_of_matching_ids" ("IndexMapIterator::" ^ report ^ "@" ^ site)
+              ("traversal(s) " ^ report ^ " of the filter result differ from the range-for traversal " ^ str_ints got);
+          let minus_ok = (try next_int r with Failure m -> oracle_fail "no_UB" kind ("short implementation output: " ^ m)) in
+          if minus_ok <> 1 && !deferred = None then
+            deferred := Some ("IndexMap.iterator_minus", "IndexMapIterator::operator-(difference_type)",
+                              "end() - k is not the position k before end() (result of " ^ site ^ ", items " ^ str_ints got ^ ")");
           (match model which with
            | None -> ()
            | Some (Ok l) -> if List.map int_of_nat l <> got then disagree "filtermap_model" site ("impl items " ^ str_ints got ^ " model " ^ str_nats l)
@@ -314,7 +326,34 @@ let judge _id (c : cursor) (r : cursor) : bool * string =
         if okf <> 1 then oracle_fail "FilterMap.getF" "FilterMap::getF" "getF differs from the constructor argument"
       | _ -> failwith ("unknown filtermap op " ^ tok)
     done;
+    (match !deferred with Some (cl, site, d) -> oracle_fail cl site d | None -> ());
     (!nq > 0 && List.length (snd !s) > 1, kind)
+  | "imap" ->
+    (* IndexMap / IndexSkipMap used directly: items ids skip *)
+    let items = next_ints c in let ids = next_ints c in let skip = next_ints c in
+    abnormal r "imap";
+    let expected = List.map (fun i -> List.nth items i) ids in
+    let deferred = ref None in
+    List.iter (fun variant ->
+        let site = "IndexMap<" ^ variant ^ ">" in
+        let got = (try List.map int_of_nat (next_smalls r) with
+            | Failure m -> oracle_fail "no_UB" "imap" ("short/garbled implementation output: " ^ m)
+            | Garbage g -> oracle_fail "FilterMap.items_of_matching_ids" site ("garbage " ^ g)) in
+        if got <> expected then oracle_fail "FilterMap.items_of_matching_ids" site ("impl items " ^ str_ints got ^ " expected " ^ str_ints expected);
+        let report = next r in
+        if report <> "ok" then oracle_fail "FilterMap.items_of_matching_ids" ("IndexMapIterator::" ^ report ^ "@" ^ site)
+            ("traversal(s) " ^ report ^ " differ from the range-for traversal " ^ str_ints got);
+        if next_int r <> 1 && !deferred = None then
+          deferred := Some ("IndexMap.iterator_minus", "IndexMapIterator::operator-(difference_type)", "end() - k is not the position k before end() (" ^ site ^ ")"))
+      ["owning"; "pointer"; "const-container"];
+    let exp_skip = List.filteri (fun i _ -> not (List.mem i skip)) items in
+    let got = (try List.map int_of_nat (next_smalls r) with
+        | Failure m -> oracle_fail "no_UB" "imap" ("short/garbled implementation output: " ^ m)
+        | Garbage g -> oracle_fail "IndexSkipMap.items_of_other_ids" "IndexSkipMap" ("garbage " ^ g)) in
+    if got <> exp_skip then oracle_fail "IndexSkipMap.items_of_other_ids" "IndexSkipMap" ("impl items " ^ str_ints got ^ " expected " ^ str_ints exp_skip);
+    if next_int r <> 1 then oracle_fail "IndexSkipMap.items_of_other_ids" "IndexSkipMapIterator" "pre-increment loop / const view / -> differ from range-for";
+    (match !deferred with Some (cl, site, d) -> oracle_fail cl site d | None -> ());
+    (ids <> [] && skip <> [], "imap")
   | k -> failwith ("unknown case kind " ^ k)
 
 let () = main_loop judge
